@@ -17,10 +17,10 @@ PLAN = dict(
          "on NIST P-256 and on a generic copy of the SM2 parameters. Non-trivial = every case (none is an identity case); distinct = "
          "distinct class keys (configuration | workload-specific key: signer/plant/uid/msg class/call index; candidate family/origin/"
          "key constructor/scalar class/integer lengths; edge construction and values; curve/scalar/operation sequence)",
-    jobs=both("c06.complete", _CFG + ["avx"], shards=(4, 16), floor=100)  # avx: SSE table select / point-add epilogues of sm2ec
+    jobs=both("c06.complete", _CFG + ["avx", "ia32"], shards=(4, 16), floor=100)  # avx: SSE table select / point-add epilogues of sm2ec
     + both("c06.sound", _CFG, shards=(16, 16), floor=200)
-    + both("c06.edge", _CFG, shards=(4, 8), floor=100)
-    + both("c06.history", _CFG + ["avx"], shards=(2, 4), floor=500)
+    + both("c06.edge", _CFG + ["ia32"], shards=(4, 8), floor=100)
+    + both("c06.history", _CFG + ["avx", "ia32"], shards=(2, 4), floor=500)
     + both("c06.legacy", _CFG, shards=(2, 8), floor=30),
     assumptions=["reference SM2 signature model in harness/ref/sm2sig over harness/ref/ec and harness/ref/sm3 (validated at every child "
                  "start against the GM/T 0003.5 signature example, the signature vectors in the library's tests, and encoding/asn1 for "
